@@ -26,6 +26,16 @@ fn nontrivial_size(w: u32, h: u32) -> bool {
 pub fn check_size(c: &SizeCase, st: &mut Stats) -> Result<(), String> {
     let (w, h) = (c.w, c.h);
     let want = new_bytes(c.id, w, h);
+    // a page of another size with the same padded length (and one with another padded length) created on this
+    // thread just before must not influence this one
+    let same_total = [(w + 1, h), (w.saturating_sub(1), h), (w, h + 8), (w + 2, h), (w, h.saturating_sub(8))]
+        .into_iter()
+        .find(|&(a, b)| total_len(a, b) == total_len(w, h) && data_len(a, b) != data_len(w, h));
+    if let Some((a, b)) = same_total {
+        let mut sib = catch(|| Page::new(PageId(c.id.wrapping_add(1)), a, b)).map_err(|p| format!("Page::new({a},{b}) panicked: {p}"))?;
+        sib.set_all_pixels(true);
+        st.class("new-page-after-a-sibling-size-with-the-same-padded-length");
+    }
     let page = catch(|| Page::new(PageId(c.id), w, h)).map_err(|p| format!("Page::new({},{w},{h}) panicked: {p}", c.id))?;
     st.eval();
     if page.as_bytes() != &want[..] {
